@@ -59,7 +59,7 @@ var (
 	active    bool
 	ntasks    int
 	tasks     *[MaxTasks]task // fresh per run: goroutines leaked by a deadlocked run stay parked on the old one
-	running   int = -1
+	running   int             = -1
 	mainWake  uint32
 	rng       uint64
 	policy    int
@@ -71,17 +71,17 @@ var (
 	qleft     int
 	pctChange [4]int
 	// trace: the task chosen at every decision with >1 runnable candidates
-	trace    [MaxSteps]uint8
-	ntrace   int
-	replay   []uint8 // when non-nil, decisions are taken from here (index = decision number)
-	nreplay  int
+	trace     [MaxSteps]uint8
+	ntrace    int
+	replay    []uint8 // when non-nil, decisions are taken from here (index = decision number)
+	nreplay   int
 	contended int // decisions with >1 runnable
 	blocks    int // times a task blocked on a primitive
-	events   [MaxEvents]Event
-	nevents  int
-	seq      int64
-	serial   int64
-	yieldHit [256]int32
+	events    [MaxEvents]Event
+	nevents   int
+	seq       int64
+	serial    int64
+	yieldHit  [256]int32
 )
 
 //go:norace
